@@ -368,6 +368,89 @@ def second_api_and_reuse(run, types, thorough):
                             break
 
 
+def reentrant_use(run, types, thorough):
+    """The codec called from inside a callback of itself, on the same thread:
+    a de-framing stream whose read() has to decode the next record's length
+    (with the same type) before it can serve the bytes, and a sink whose
+    send() encodes a count of its own."""
+    from minecraft.networking.packets import PacketBuffer
+    rng = run.rng('reentrant')
+    for T, name, _nom in types:
+        width = 64 if name == 'VarLong' else 31
+
+        class Deframer(object):
+            """records: [length as T][payload]; read(n) serves payload bytes
+            and crosses into the next record by decoding its length"""
+            def __init__(self, payload, sizes):
+                raw, pos = b'', 0
+                for k in sizes:
+                    raw += ref.encode(k) + payload[pos:pos + k]
+                    pos += k
+                self.inner = CountingStream(raw)
+                self.cur = b''
+                self.nested = 0
+
+            def read(self, n):
+                if not self.cur:
+                    if self.inner.pos >= len(self.inner.data):
+                        return b''
+                    self.nested += 1
+                    k = T.read(self.inner)
+                    self.cur = self.inner.read(k)
+                out, self.cur = self.cur[:n], self.cur[n:]
+                return out
+
+        class CountingSink(object):
+            """send() keeps the chunk and notes its length in a side channel,
+            encoded with the same type"""
+            def __init__(self):
+                self.chunks, self.side = [], PacketBuffer()
+
+            def send(self, data):
+                self.chunks.append(bytes(data))
+                T.send(len(data) + 200, self.side)
+
+        for rep in range(400 if thorough else 60):
+            v = rng.getrandbits(rng.randrange(8, width))
+            enc = ref.encode(v)
+            sizes, left = [], len(enc)
+            while left:
+                k = rng.choice((1, 1, 2, left))
+                k = min(k, left)
+                sizes.append(k)
+                left -= k
+            st = Deframer(enc, sizes)
+            try:
+                back = T.read(st)
+            except Exception as e:
+                back = repr(e)
+            run.count('reentrant_decodes')
+            run.case(('reentrant', name, v, tuple(sizes)))
+            if back != v:
+                run.violation('decode/%s/reentrant-stream' % name,
+                              'decoding from a stream whose read() itself '
+                              'decodes a value of the same type (record '
+                              'lengths) gives a wrong result', {
+                                  'type': name, 'value': v, 'got': back,
+                                  'record_sizes': sizes,
+                                  'nested_decodes': st.nested})
+                break
+            sink = CountingSink()
+            try:
+                T.send(v, sink)
+                got = b''.join(sink.chunks)
+            except Exception as e:
+                got = repr(e)
+            run.count('reentrant_encodes')
+            if got != enc:
+                run.violation('encode/%s/reentrant-sink' % name,
+                              'encoding into a sink whose send() itself '
+                              'encodes a value of the same type gives wrong '
+                              'bytes', {'type': name, 'value': v, 'got': got,
+                                        'expected': enc})
+                break
+
+
 def run(run):
     from minecraft.networking.types import VarInt, VarLong
     from minecraft.networking.packets import PacketBuffer
@@ -596,14 +679,20 @@ def run(run):
                 v = r.getrandbits(r.randrange(1, 64 if name == 'VarLong'
                                               else 32))
                 buf = PacketBuffer()
-                T.send(v, buf)
-                got = buf.get_writable()
+                try:
+                    T.send(v, buf)
+                    got = buf.get_writable()
+                    st = CountingStream(ref.encode(v))
+                    back = T.read(st)
+                except Exception as e:
+                    errors.append({'type': name, 'value': v,
+                                   'raised': repr(e)})
+                    return
                 if got != ref.encode(v):
                     errors.append({'type': name, 'value': v, 'got': got,
                                    'expected': ref.encode(v)})
                     return
-                st = CountingStream(got)
-                if T.read(st) != v:
+                if back != v:
                     errors.append({'type': name, 'value': v,
                                    'decode': 'wrong'})
                     return
@@ -617,6 +706,23 @@ def run(run):
                 t.join(300.0)
             run.bulk(3 * n, 0)
             run.count('concurrent_codec_calls', 3 * n)
+            # the same under yield injection at every statement of the codec
+            # module: a pre-emption *inside* an encoding or decoding loop is
+            # then the rule, not a matter of luck
+            if not errors:
+                n2 = 6000 if thorough else 1500
+                with LineMonitor(files=['minecraft/networking/types/basic.py'],
+                                 yield_prob=0.3, seed=run.seed) as mon:
+                    ts = [threading.Thread(target=hammer,
+                                           args=(run.seed * 11 + k, n2))
+                          for k in range(4)]
+                    for t in ts:
+                        t.start()
+                    for t in ts:
+                        t.join(300.0)
+                    run.count('concurrent_codec_calls_with_yield_injection',
+                              4 * n2)
+                    run.count('codec_yields_injected', mon.yields)
         finally:
             sys.setswitchinterval(old_si)
         if errors:
@@ -630,6 +736,8 @@ def run(run):
         run.sample({'negatives_tried': negs[:6]})
     stream_kinds(run, types, thorough)
     second_api_and_reuse(run, types, thorough)
+    if run.shard == 0:
+        reentrant_use(run, types, thorough)
     if run.shard == 0:
         sinks_and_overrides(run, types, thorough)
     run.require('stream_kinds.partitions', 200)
